@@ -338,7 +338,10 @@ class _AsyncFileWriter(_UnicodeWriter[AnyStr]):
             await self._file.write(self.encode(data))
             self._queue.task_done()
 
-            if self._paused and self._queue.qsize() < _QUEUE_LOW_WATER:
+            # Once this writer has been replaced, feeding is no longer
+            # its business
+            if self._paused and self._write_task and \
+                    self._queue.qsize() < _QUEUE_LOW_WATER:
                 self._process.resume_feeding(self._datatype)
                 self._paused = False
 
@@ -618,7 +621,10 @@ class _StreamWriter(_UnicodeWriter[AnyStr]):
             await self._writer.drain()
             self._queue.task_done()
 
-            if self._paused and self._queue.qsize() < _QUEUE_LOW_WATER:
+            # Once this writer has been replaced, feeding is no longer
+            # its business
+            if self._paused and self._write_task and \
+                    self._queue.qsize() < _QUEUE_LOW_WATER:
                 self._process.resume_feeding(self._datatype)
                 self._paused = False
 
@@ -1208,10 +1214,12 @@ class SSHProcess(SSHStreamSession, Generic[AnyStr]):
     def clear_writer(self, datatype: DataType) -> None:
         """Clear a writer forwarding data from the channel"""
 
+        # Remove the writer first, so that data which the channel releases
+        # when feeding resumes isn't handed to it any more
+        del self._writers[datatype]
+
         if datatype in self._paused_write_streams:
             self.resume_feeding(datatype)
-
-        del self._writers[datatype]
 
     def close(self) -> None:
         """Shut down the process"""
